@@ -76,6 +76,25 @@ def effects(out, zv):
     return len(cases)
 
 
+def values(out, zv):
+    """What every VM instruction does to the VALUES on the data stack (ZVM.tla): model-checked over all short
+    instruction sequences (three wrong machines refuted), then bound to the real VM: every distinct
+    (instruction, before-window) signature the step tracer saw is validated by ZVMTrace."""
+    flow.mc_runs(out, [
+        {"module": "MCZVM.tla", "cfg": "MCZVMQuick.cfg" if vlib.tier() != "thorough" else "MCZVM.cfg", "expect": "ok", "timeout": 900},
+        {"module": "MCZVM.tla", "cfg": "MCZVMSquashReversed.cfg", "expect": "violation", "timeout": 300},
+        {"module": "MCZVM.tla", "cfg": "MCZVMDupBelow.cfg", "expect": "violation", "timeout": 300},
+        {"module": "MCZVM.tla", "cfg": "MCZVMBranchKeeps.cfg", "expect": "violation", "timeout": 300},
+    ])
+    tr = os.path.join(vlib.scratch(), "zvm.ndjson")
+    vlib.run_zv(zv, "zvm", [], tr)
+    cases, v = flow.validate(out, "zvm", "ZVMTrace.tla", "ZVMTrace.cfg", tr, zv)
+    out.extra["vm_value_signatures"] = len(cases)
+    out.extra["vm_value_signatures_judged"] = len([i for i in cases if v[i][0] != "skip"])
+    out.extra["vm_value_kinds_judged"] = sorted(set(c["op"] for i, c in cases.items() if v[i][0] != "skip"))
+    return len(cases)
+
+
 def entrypoints(out, zv):
     """The host protocol of the public entry points (EntryPoints.tla): model-checked, then recorded histories of
     host calls on real interpreters validated against the same state functions (EntryTrace.tla)."""
@@ -104,6 +123,7 @@ def run():
     zv = vlib.build_zv()
     entrypoints(out, zv)
     effects(out, zv)
+    values(out, zv)
     trace = os.path.join(vlib.scratch(), "session.ndjson")
     vlib.run_zv(zv, "session", ["-mode", "seq"], trace)
     cases, v = flow.validate(out, "session", "SessionTrace.tla", "SessionTrace.cfg", trace, zv, replay_args=["-mode", "seq"])
@@ -149,7 +169,8 @@ def replay(path):
     open(rp, "w").write(json.dumps(rec["case"]) + "\n")
     fresh = os.path.join(vlib.scratch(), "fresh.ndjson")
     fam, module, cfg = {"entry": ("entry", "EntryTrace.tla", "EntryTrace.cfg"),
-                        "vmfx": ("vmfx", "EffectTrace.tla", "EffectTrace.cfg")}.get(rec.get("family"), ("session", "SessionTrace.tla", "SessionTrace.cfg"))
+                        "vmfx": ("vmfx", "EffectTrace.tla", "EffectTrace.cfg"),
+                        "zvm": ("zvm", "ZVMTrace.tla", "ZVMTrace.cfg")}.get(rec.get("family"), ("session", "SessionTrace.tla", "SessionTrace.cfg"))
     vlib.run_zv1(zv, fam, ["-replay", rp], out=fresh)
     v, _ = vlib.validate_trace(module, cfg, fresh)
     bad = [i for i in v if v[i][0] == "bad"]
